@@ -121,4 +121,28 @@ theorem sanitise_imports_bare (used : List String) (imps : List Imp) :
   · rfl
   · exact elimAll_bare used imps
 
+theorem isUsed_append_right (a b : List String) (s : String) (h : isUsed b s = true) : isUsed (a ++ b) s = true := by
+  simp only [isUsed, List.contains_eq_mem, List.mem_append, decide_eq_true_eq] at *
+  exact Or.inr h
+
+theorem isUsed_append_left (a b : List String) (s : String) (h : isUsed a s = true) : isUsed (a ++ b) s = true := by
+  simp only [isUsed, List.contains_eq_mem, List.mem_append, decide_eq_true_eq] at *
+  exact Or.inl h
+
+/-- a routine with member procedures: a name the host imports explicitly stays imported by the host when the host itself OR ANY
+MEMBER uses it (host association) — the members' names are collected before the host's imports are pruned -/
+theorem sanitise_routine_keeps (sc : Scope1) (s : String) (h : s ∈ importedSyms sc.imps)
+    (hu : isUsed sc.used s = true ∨ isUsed (membersUsed sc.members) s = true) :
+    s ∈ importedSyms (sanitiseRoutine sc).imps := by
+  simp only [sanitiseRoutine]
+  apply sanitise_imports_keeps _ _ _ h
+  cases hu with
+  | inl h1 => exact isUsed_append_left _ _ _ h1
+  | inr h1 => exact isUsed_append_right _ _ _ h1
+
+/-- … and the host keeps its USE statements without ONLY list -/
+theorem sanitise_routine_bare (sc : Scope1) : bareModules (sanitiseRoutine sc).imps = bareModules sc.imps := by
+  simp only [sanitiseRoutine]
+  exact sanitise_imports_bare _ _
+
 end LokiModel.C41
